@@ -121,11 +121,32 @@ class World:
         if self.fe is not None:
             self.fe.stop()
 
+    def adopt_defaults(self):
+        """--defaults: the server makes a calendar and an address book for the principal at start-up when they
+        are not there; they are collections of the model like those a client made."""
+        if self.autocreate != "defaults":
+            return []
+        new = []
+        pr = self.principal.rstrip("/")
+        for colpath, kind in ((pr + "/calendars/calendar/", "calendar"), (pr + "/contacts/addressbook/", "addressbook")):
+            if colpath in self.cols:
+                continue
+            if not os.path.isdir(os.path.join(self.root, colpath.strip("/"))):
+                continue
+            c = Col(colpath, kind, "tree")
+            self.cols[colpath] = c
+            par = self.parent_of(colpath)
+            if par in self.cols:
+                self.cols[par].subcols.add(colpath)
+            new.append(colpath)
+        return new
+
     def restart(self):
         self.n += 1
         s = self._mkstep("restart", "-", "-", [], None)
         self.fe.restart()
         self.restarts += 1
+        self.adopt_defaults()
         s.status = s.eff = 0
         s.t_ret = time.monotonic()
         self.steps.append(s)
